@@ -55,6 +55,8 @@ class Ob:
 # integers) do not poll it: a query can then run for tens of minutes.  A daemon thread in each worker process notices a
 # query that has overrun 6 x its timeout + 45 s, records the obligation group that posed it in <unit>.skip and kills the
 # process; the driver re-runs the unit, which reports that group as inconclusive ("solver did not return").
+DUMPED = [0]
+BUDGET = {'spent': 0.0, 'limit': None}
 WATCH = {'since': None, 'limit': None, 'group': None, 'skipfile': None, 'thread': None}
 
 
@@ -97,6 +99,20 @@ def solve(constraints, timeout_ms=10000, want_smt=False, logic=None, tactic=None
         smt = s.to_smt2()
         if len(smt) > 6000:
             smt = smt[:6000] + '\n; ... truncated'
+    if BUDGET['limit'] is not None and BUDGET['spent'] > BUDGET['limit']:
+        # hard solver budget of this translation unit (guards against a change that makes thousands of obligations
+        # non-trivial at once): the remaining queries are not posed and their obligations stay inconclusive
+        return 'not posed (solver budget of %d s for this unit exhausted)' % BUDGET['limit'], None, 0.0, None
+    dump = os.environ.get('PHQV_DUMP_SMT')
+    dump_path = None
+    if dump:
+        # cross-solver validation aid (tools/cross_solver.py): write a sample of the queries with z3's verdict
+        DUMPED[0] += 1
+        if DUMPED[0] % int(os.environ.get('PHQV_DUMP_EVERY', '25')) == 1:
+            os.makedirs(dump, exist_ok=True)
+            dump_path = os.path.join(dump, '%d_%d.smt2' % (os.getpid(), DUMPED[0]))
+            with open(dump_path, 'w') as f:
+                f.write(s.to_smt2())
     t0 = time.time()
     WATCH['since'] = t0
     WATCH['limit'] = 6.0 * timeout_ms / 1000.0 + 45.0
@@ -107,6 +123,10 @@ def solve(constraints, timeout_ms=10000, want_smt=False, logic=None, tactic=None
         return 'error:' + str(e)[:100], None, time.time() - t0, smt
     WATCH['since'] = None
     dt = time.time() - t0
+    BUDGET['spent'] += dt
+    if dump_path:
+        with open(dump_path, 'a') as f:
+            f.write('\n; z3-%s verdict: %s (%.2f s)\n' % (z3.get_version_string(), r, dt))
     if r == z3.unsat:
         return 'unsat', None, dt, smt
     if r == z3.sat:
@@ -398,7 +418,7 @@ def summarize_reasons(inc):
 def write_replay(prop, name, case):
     d = os.path.join(REPLAYS, prop)
     os.makedirs(d, exist_ok=True)
-    p = os.path.join(d, re.sub(r'[^\w.-]', '_', name)[:120] + '.json')
+    p = os.path.join(d, re.sub(r'[^\w.-]', '_', name)[:110] + '_' + hashlib.md5(name.encode()).hexdigest()[:6] + '.json')
     with open(p, 'w') as f:
         json.dump(case, f, indent=1, default=str)
     return p
